@@ -99,6 +99,9 @@ def transformed(tf, oned):
 def sweep(ctx: Ctx):
     """property oracle on the implementation; per check kind only the canonical first failing input is reported"""
     first = {}
+
+    def rec(kind, cls, val):
+        first.setdefault((kind, cls), val)
     plan = [("MultiExpRTransform", dict(rmin=0.0, R=1.0), "GaussLegendre", 5),
             ("KnowlesRTransform", dict(rmin=0.0, R=1.5, k=1.5), "GaussChebyshev", 10),
             # Jacobians beyond 1e16 at interior nodes (trimming must only replace infinities)
@@ -128,7 +131,7 @@ def sweep(ctx: Ctx):
         try:
             new = transformed(tf, oned)
         except Exception as e:  # noqa: BLE001
-            first.setdefault("constructs", (desc, type(e).__name__, "a grid"))
+            rec("constructs", cname, (desc, type(e).__name__, "a grid"))
             continue
         n += 1
         x, w = oned.points, oned.weights
@@ -141,18 +144,18 @@ def sweep(ctx: Ctx):
         fin = interior & np.isfinite(dv_nt) & np.isfinite(tx_nt)
         if np.any(tx[fin] != tx_nt[fin]) or np.any(dv[fin] != dv_nt[fin]):
             i = int(np.argmax(fin & ((tx != tx_nt) | (dv != dv_nt))))
-            first.setdefault("trim_only_infinities", (desc + f": node {x[i]!r}", float(dv[i]), float(dv_nt[i])))
+            rec("trim_only_infinities", cname, (desc + f": node {x[i]!r}", float(dv[i]), float(dv_nt[i])))
         if not np.array_equal(new.points, tx):
-            first.setdefault("points", (desc, float(np.max(np.abs(new.points - tx))), 0.0))
+            rec("points", cname, (desc, float(np.max(np.abs(new.points - tx))), 0.0))
         exp_w = np.abs(dv) * w
         bad = interior & ~np.isclose(new.weights, exp_w, rtol=1e-13, atol=0)
         if bad.any():
             i = int(np.argmax(bad))
-            first.setdefault("jacobian_magnitude", (desc, float(new.weights[i]), float(exp_w[i])))
+            rec("jacobian_magnitude", cname, (desc, float(new.weights[i]), float(exp_w[i])))
         # nodes ON a domain end: no NaN anywhere; where the image is finite the weight is w * |one-sided Jacobian| (independent of deriv)
         if np.isnan(new.weights).any() or np.isnan(new.points).any():
             i = int(np.argmax(np.isnan(new.weights) | np.isnan(new.points)))
-            first.setdefault("end_node", (desc + f": node {float(x[i])!r}", float(new.weights[i]), "a number (finite, or the trimmed infinity)"))
+            rec("end_node", cname, (desc + f": node {float(x[i])!r}", float(new.weights[i]), "a number (finite, or the trimmed infinity)"))
         for i in np.nonzero(~interior)[0]:
             if not np.isfinite(tx_nt[i]):
                 continue
@@ -163,33 +166,36 @@ def sweep(ctx: Ctx):
             jac = 2 * d[1] - d[0]  # Richardson step of the one-sided difference quotient
             scale_ = abs(float(tf_nt.transform(x[i] + sgn * 0.5)) - f0)
             if np.isfinite(jac) and abs(d[1] - d[0]) <= 1e-3 * scale_ and not abs(abs(new.weights[i]) - abs(w[i] * jac)) <= 1e-4 * (abs(w[i]) * (abs(jac) + scale_)):
-                first.setdefault("end_node", (desc + f": node {float(x[i])!r}: |weight|", abs(float(new.weights[i])), abs(float(w[i] * jac))))
+                rec("end_node", cname, (desc + f": node {float(x[i])!r}: |weight|", abs(float(new.weights[i])), abs(float(w[i] * jac))))
         if np.all(w >= 0) and np.any(new.weights < 0):
-            first.setdefault("weights_nonneg", (desc, float(np.min(new.weights[interior])) if np.any(new.weights[interior] < 0) else float(np.min(new.weights)), ">= 0"))
+            rec("weights_nonneg", cname, (desc, float(np.min(new.weights[interior])) if np.any(new.weights[interior] < 0) else float(np.min(new.weights)), ">= 0"))
         dom = new.domain
         if dom is not None:
             if not (dom[0] <= dom[1]) or np.min(new.points) < dom[0] - 1e-7 or np.max(new.points) > dom[1] + 1e-7:
-                first.setdefault("domain", (desc, str(dom), "ordered image containing all nodes"))
+                rec("domain", cname, (desc, str(dom), "ordered image containing all nodes"))
             with np.errstate(all="ignore"):
                 img = np.sort(tf.transform(np.array(oned.domain, dtype=float)))
             if not np.array_equal(np.asarray(dom, float), img):
-                first.setdefault("domain", (desc, str(dom), str(tuple(img))))
+                rec("domain", cname, (desc, str(dom), str(tuple(img))))
         if np.all(w >= 0):
-            val = float(np.sum(new.weights[interior] * np.exp(-new.points[interior])))
+            pin = new.points[interior]
+            val = float(np.sum(new.weights[interior] * np.exp(-(pin - pin.min()) / max(float(np.ptp(pin)), 1e-300))))  # positive integrand on the nodes' own scale
             if not val > 0:
-                first.setdefault("positive_integral", (desc + ": integral of exp(-r)", val, "> 0"))
+                rec("positive_integral", cname, (desc + ": integral of exp(-(r - r_first)/(r_last - r_first))", val, "> 0"))
     # the inverse map as a change of variables (r -> x): nodes tf.inverse(r), weights w / |tf.deriv(x)|, for length scales 1e-10..1e8
-    inv_plan = []
+    inv_plan = [("MultiExpRTransform", dict(rmin=0.0, R=1.0)), ("BeckeRTransform", dict(rmin=0.0, R=1.0))]
     for c in classes:
         for sc in (1.0, 2.0 ** -33, 2.0 ** -20, 2.0 ** 27):
             p0, _, _ = c03.sample_params(c, ctx.rng)
             if sc != 1.0 and c == "HandyModRTransform":
                 continue
             inv_plan.append((c, {k: (v * sc if k in ("rmin", "rmax", "R") else v) for k, v in p0.items()}))
-    for cname, p in inv_plan:
+    for j_inv, (cname, p) in enumerate(inv_plan):
         tf = _tf(cname, p)
         xs = np.array(sorted(ctx.rng.sample(range(-58, 59), 5))) / 64.0
         ws = np.array([ctx.rng.randint(1, 64) / 32.0 for _ in range(5)])
+        if j_inv < 2:  # the fixed corpus entries
+            xs, ws = np.array([-0.5, -0.125, 0.25, 0.625, 0.75]), np.array([1.0, 0.5, 1.5, 1.25, 0.75])
         desc = f"InverseRTransform({cname}({', '.join(f'{k}={v}' for k, v in p.items())})).transform_1d_grid(OneDGrid(transform({xs.tolist()}), {ws.tolist()}))"
         with np.errstate(all="ignore"):
             rs, dv = tf.transform(xs), tf.deriv(xs)
@@ -197,16 +203,16 @@ def sweep(ctx: Ctx):
         try:
             new = transformed(RT.InverseRTransform(tf), OneDGrid(rs[order], ws[order], (float(rs.min()), float(rs.max()))))
         except Exception as e:  # noqa: BLE001
-            first.setdefault("inverse_grid", (desc, type(e).__name__ + ": " + str(e)[:60], "a grid with nodes x and weights w/|r'(x)|"))
+            rec("inverse_grid", "Inverse" + cname, (desc, type(e).__name__ + ": " + str(e)[:60], "a grid with nodes x and weights w/|r'(x)|"))
             continue
         n += 1
         if not np.allclose(new.points, xs[order], rtol=0, atol=1e-9):
-            first.setdefault("inverse_grid", (desc + ": nodes", float(np.max(np.abs(new.points - xs[order]))), 0.0))
+            rec("inverse_grid", "Inverse" + cname, (desc + ": nodes", float(np.max(np.abs(new.points - xs[order]))), 0.0))
         elif not np.allclose(np.abs(new.weights), (ws / np.abs(dv))[order], rtol=1e-7, atol=0):
             i = int(np.argmax(np.abs(np.abs(new.weights) / (ws / np.abs(dv))[order] - 1)))
-            first.setdefault("inverse_grid", (desc + f": |weight {i}|", abs(float(new.weights[i])), float((ws / np.abs(dv))[order][i])))
+            rec("inverse_grid", "Inverse" + cname, (desc + f": |weight {i}|", abs(float(new.weights[i])), float((ws / np.abs(dv))[order][i])))
         elif np.any(new.weights < 0):
-            first.setdefault("weights_nonneg", (desc, float(np.min(new.weights)), ">= 0"))
+            rec("weights_nonneg", "Inverse" + cname, (desc, float(np.min(new.weights)), ">= 0"))
     # rules on a half line [0, inf) through the maps defined there, rules on [rmin, inf) through the inverse maps, and rules on a
     # proper sub-interval of a map's domain: nodes, |Jacobian| weights, and the new domain = ordered image containing every node
     def image_of(tf_, lo_, hi_):
@@ -257,7 +263,7 @@ def sweep(ctx: Ctx):
             tf = mk()
             new = transformed(tf, rule)
         except Exception as e:  # noqa: BLE001
-            first.setdefault(f"other_domains:{kcls}", (desc, type(e).__name__ + ": " + str(e)[:70], "a grid"))
+            rec("other_domains", kcls, (desc, type(e).__name__ + ": " + str(e)[:70], "a grid"))
             continue
         n += 1
         x, w = rule.points, rule.weights
@@ -267,9 +273,9 @@ def sweep(ctx: Ctx):
             with np.errstate(all="ignore"):
                 img = tuple(sorted(float(v) for v in tf.transform(np.array(rule.domain, dtype=float))))
         if not np.allclose(new.points, tx, rtol=1e-13, atol=0):
-            first.setdefault(f"other_domains:{kcls}", (desc + ": nodes", float(np.max(np.abs(new.points - tx))), 0.0))
+            rec("other_domains", kcls, (desc + ": nodes", float(np.max(np.abs(new.points - tx))), 0.0))
         elif not np.allclose(np.abs(new.weights), np.abs(dv) * w, rtol=1e-12, atol=0):
-            first.setdefault(f"other_domains:{kcls}", (desc + ": |weights|", float(np.max(np.abs(np.abs(new.weights) - np.abs(dv) * w))), 0.0))
+            rec("other_domains", kcls, (desc + ": |weights|", float(np.max(np.abs(np.abs(new.weights) - np.abs(dv) * w))), 0.0))
         dom = tuple(float(v) for v in new.domain) if new.domain is not None else None
         tol = 1e-7
         ok = (dom is not None and not any(np.isnan(dom)) and dom[0] <= dom[1]
@@ -277,7 +283,7 @@ def sweep(ctx: Ctx):
               and all((a == b) or abs(a - b) <= 1e-9 * max(1.0, abs(b)) for a, b in zip(dom, img) if np.isfinite(b))
               and all(a == b for a, b in zip(dom, img) if not np.isfinite(b)))
         if not ok:
-            first.setdefault(f"domain_of_image:{kcls}", (desc + ": domain", str(dom), str(tuple(float(v) for v in img))))
+            rec("domain_of_image", kcls, (desc + ": domain", str(dom), str(tuple(float(v) for v in img))))
     # exactness transport: Gauss-Legendre mapped linearly to [a,b]
     for npt in ([2, 5, 8] if ctx.quick else range(2, 16)):
         a, b = Fraction(ctx.rng.randint(-8, 8), 4), None
@@ -288,7 +294,7 @@ def sweep(ctx: Ctx):
             got = float(np.sum(new.weights * new.points ** d))
             n += 1
             if abs(got - float(exact)) > 1e-11 * max(1.0, abs(float(exact)), float(max(abs(a), abs(b)) ** d)):
-                first.setdefault("gl_linear_exact", (f"LinearFiniteRTransform({float(a)},{float(b)}).transform_1d_grid(GaussLegendre({npt})): x^{d}", got, float(exact)))
+                rec("gl_linear_exact", "LinearFiniteRTransform", (f"LinearFiniteRTransform({float(a)},{float(b)}).transform_1d_grid(GaussLegendre({npt})): x^{d}", got, float(exact)))
     ctx.cov["sweep_grids"] = n
     return first
 
@@ -343,18 +349,17 @@ def run(ctx: Ctx):  # noqa: F811
     if status.get("C04_refuted_sign.v"):
         ctx.mark_refuted("weights_nonneg_decreasing", "weights_nonneg_refuted_lemma")
     fails = sweep(ctx)
-    attached = False
     cands = []
-    for kind, (desc, obs, exp) in fails.items():
+    SIGN = ("jacobian_magnitude", "weights_nonneg", "positive_integral")  # consequences of one another: report the first per class
+    seen_sign = set()
+    for (kind, cls), (desc, obs, exp) in fails.items():
+        if kind in SIGN:
+            if cls in seen_sign:
+                continue
+            seen_sign.add(cls)
         obl = OBL_OF.get(kind)
         ob = ctx.obligations.get(obl) if obl else None
-        if ob is not None and ob["status"] != "discharged":
-            if attached:
-                continue  # jacobian magnitude / positive integral are the same defect as the negative weights
-            attached = True
-            name = obl
-        else:
-            name = f"sweep_{kind}"
+        name = obl if (ob is not None and ob["status"] != "discharged") else f"sweep_{kind}"
         key, ob_ = f"{kind}:{desc}", (round(obs, 9) if isinstance(obs, float) else obs)
         text, rp = f"{desc}: {kind} violated: observed {obs}, expected {exp}", {"reproduce": desc, "expected": exp}
         if gen_err is not None and not ctx.is_known(key, ob_):
